@@ -219,7 +219,14 @@ class DataMixin:
             seq = self.seq_get(obj)
         if seq is not None:
             pre, mid, post = self.split3(seq, lo, hi, node)
-            return VSeq(mid) if isinstance(obj, VSeq) else ex.alloc(HSymList(mid))
+            if isinstance(obj, VSeq):
+                return VSeq(mid)
+            r = ex.alloc(HSymList(mid))
+            for extra in ('elem_hint', 'elem_fact'):
+                src = ex.heap[obj.addr] if isinstance(obj, VRef) else None
+                if src is not None and hasattr(src, extra):
+                    setattr(ex.heap[r.addr], extra, getattr(src, extra))
+            return r
         raise Undecided(f'slice of {obj!r}')
 
     def concrete_bound(self, b, n, default):
@@ -238,7 +245,15 @@ class DataMixin:
         n = z3.Length(seq)
         l = z3.IntVal(0) if (lo is None or lo is NONE) else self.as_int(lo, node, 'slice bound')
         u = n if (hi is None or hi is NONE) else self.as_int(hi, node, 'slice bound')
-        ex.require('safe', z3.And(l >= 0, u >= 0), 'non-negative slice bounds (negative bounds not modelled)', node)
+
+        def from_end(b):
+            # a negative constant bound counts from the end (clamped at 0), as in Python; symbolic bounds must be non-negative
+            bs = smt.simp(b)
+            if z3.is_int_value(bs) and bs.as_long() < 0:
+                return z3.If(n + bs < 0, z3.IntVal(0), n + bs)
+            return b
+        l, u = from_end(l), from_end(u)
+        ex.require('safe', z3.And(l >= 0, u >= 0), 'non-negative slice bounds (negative symbolic bounds not modelled)', node)
         lc = z3.If(l > n, n, l)
         uc = z3.If(u > n, n, u)
         uc = z3.If(uc < lc, lc, uc)
